@@ -427,6 +427,26 @@ theorem c02_transform_literal_refines (T : Tables) (env : Env) (cfg : Cfg) (latc
   rw [dup_lit e _ hl]
   exact pyEval_lit T.names env e _ hl
 
+/-- … and on the tool and transform pathways: a delivered tool-pathway value is the value of Python's evaluation of the
+    tool call (`pyToolRun`, with exactly its interactions); a delivered transform-pathway value of a display of literals
+    is Python's value of the text, nothing executed. -/
+theorem c02_delivered_tool_and_literal_values_are_pythons (T : Tables) (env : Env) (hT : TablesSound T)
+    (hc : CmpReturnsBool env) (cfg : Cfg) (box : Box) (latched : Bool) (d : Pathway) (inp : Inp)
+    (forced : Option Pathway) (tr : List Act) (v : Val) (r : Bool) (p : Pathway)
+    (h : metabolizeD T env cfg box latched d inp forced = (tr, .result true (some v) r (some p))) :
+    (p = .oxidative → ∃ e, inp.parsed = some e ∧ pyToolRun T.names env cfg.tools e = (tr, .ok v)) ∧
+    (p = .beta → ∀ e w, inp.parsed = some e → litEval e = some w → inp.beta = litEval e →
+        v = w ∧ pyRun T.names env e = ([], .ok v) ∧ tr = []) := by
+  unfold metabolizeD at h
+  obtain ⟨h1, h2⟩ := Prod.mk.inj h
+  obtain ⟨ho, _, _⟩ := deliver_success box _ v r (some p) h2
+  have hm : metabolize T env cfg latched d inp forced = (tr, .result true (some v) r (some p)) := Prod.ext h1 ho
+  constructor
+  · intro hp; subst hp
+    exact c02_entry_point_tool_refines T env hT hc cfg latched d inp forced tr v r hm
+  · intro hp e w he hl hb; subst hp
+    exact c02_transform_literal_refines T env cfg latched d inp forced tr v w r e hm he hl hb
+
 /-- Literal contents are never rewritten: constants (strings included) are untouched by the normalisation, and so
     is every name other than `true` / `false`. -/
 theorem c02_literals_untouched (v : Val) (n : String) (h1 : n ≠ "true") (h2 : n ≠ "false") :
